@@ -163,8 +163,8 @@ func classifyDump(dump string) (deadlock bool, summary string) {
 				continue
 			}
 			fn := l
-			if i := strings.Index(fn, "("); i > 0 {
-				fn = fn[:i]
+			if i := strings.LastIndex(fn, "("); i > 0 {
+				fn = fn[:i] // drop the argument list, keep receivers like (*TapeManager)
 			}
 			if strings.Contains(fn, "pojntfx/stfs") || strings.HasPrefix(fn, "sync.") || strings.HasPrefix(fn, "io.(*pipe)") {
 				fn = strings.TrimPrefix(fn, "github.com/pojntfx/stfs/")
